@@ -1,8 +1,9 @@
-import os, re
+import os, re, threading
 import core
 from checks.generic import COMMON_TRUSTED, compile_gen, first_index
 
-PROPS = ["c15_roundtrip", "c15_sync_mirror", "c15_sync_completes", "c15_mirror_reads", "c15_atomic",
+PROPS = ["c15_roundtrip", "c15_profile_roundtrip", "c15_profile_canon_idempotent", "c15_profile_save_load",
+         "c15_profile_case_is_property", "c15_profile_identity_refuted", "c15_sync_mirror", "c15_sync_completes", "c15_mirror_reads", "c15_atomic",
          "c15_restart_keeps_stores", "c15_restart_outage_reads", "c15_copier_turn", "c15_copier_lag", "c15_ghost_is_run",
          "c15_outage_reads", "c15_outage_writes", "c15_dead_frozen", "c15_cleanup_invisible",
          "c15_cleanup_purges", "c15_reads_unexpired", "c15_old_outage_reported_refuted", "c15_old_mirror_refuted",
@@ -37,7 +38,8 @@ TRUSTED = ["SQLite (mattn/go-sqlite3) transaction semantics ON A CONNECTION THAT
            "a restart of the daemon = a second RuntimeState from loadVerifyConfigFile / initDB on the same data directory, the first one's handles closed, its background copier stopped; the process boundary itself (exit, exec) is not crossed",
            "software U2F token (harness/kmd/vdevice.go) for registrations and WebAuthn assertions"]
 
-UNPROVED = ["the gob encoding round trip of userProfile (U2F registrations, WebAuthn credentials, TOTP secrets, bootstrap OTP, pending data) is property-tested through the real Save/Load and the cache, not proved",
+UNPROVED = ["encoding/gob itself stays trusted library code: proved (c15_profile_roundtrip, Model/Profile.v) is that the content of a userProfile (U2F registrations, WebAuthn credentials, TOTP secrets, bootstrap OTP, pending data; maps by key, nil = empty) is stable under gob's documented zero-value rules, for every profile; that the real encoder behind SaveUserProfile / LoadUserProfile and the cache obeys those rules is COMPARED on the generated profiles (Go canonical strings, and the same (saved, loaded) pairs evaluated inside Coq: c15_profile_mismatches), not proved",
+            "the Go -> Coq rendering of a profile abstracts byte strings longer than 14 bytes to length + 48 bits of SHA-256, a u2f.Registration to its Raw bytes, SessionData.Extensions to its sorted listing and times to Unix nanoseconds; c15_profile_save_load takes the codec's content behaviour (dec (enc p) = gob_roundtrip p) as its premise, the storage model's blobs stay numbers",
             "which handler belongs to which model class is established by driving it (20 requests); handlers that need a WebAuthn attestation (RegisterFinish) or e-mail (self-service bootstrap OTP) are only probed generically"]
 
 
@@ -54,7 +56,24 @@ def run(ctx):
         else:
             ctx.obligations.append(("gen:c15_cache_is_transactional", False, "the harness wrote no probed connection settings"))
             ctx.broken.append(("obligation", "gen:ConstsC15.v", "work/C15/gen/ConstsC15.v missing or rejected"))
+        # the profile pairs are a case file of their own, compiled while CasesC15.v is evaluated
+        pbox = {}
+        pfile = os.path.join(ctx.work, "CasesC15p.v")
+        pth = None
+        if os.path.exists(pfile):
+            pth = threading.Thread(target=lambda: pbox.update(r=ctx.coqc(pfile, timeout=1800)))
+            pth.start()
         res = ctx.eval_cases(os.path.join(ctx.work, "CasesC15.v"), "CasesC15.v")
+        if pth is not None:
+            pth.join()
+        pres = {}
+        prc, pout = pbox.get("r", (1, "the harness wrote no CasesC15p.v"))
+        if prc == 0:
+            for m in re.finditer(r"^(\w+) =\s*(.*?)\n\s*: ", pout, re.S | re.M):
+                pres[m.group(1)] = " ".join(m.group(2).split())
+        else:
+            ctx.obligations.append(("corr:CasesC15p.v", False, "case file rejected"))
+            ctx.broken.append(("correspondence", "CasesC15p.v", pout[-2000:]))
         if res is not None:
             n = res.get("c15_ncases", "?")
             for name, label, idxfile in CASES:
@@ -71,6 +90,30 @@ def run(ctx):
                 if i is not None and i < len(lines):
                     first = lines[i]
                 ctx.broken.append(("correspondence", name, {"label": label, "first_mismatch": first, "indices": (mism or "")[:400]}))
+            # the content of the profile: (saved, loaded) pairs of the real SaveUserProfile / LoadUserProfile in the
+            # representation of Model/Profile.v; model prediction canon (gob_roundtrip saved) = canon loaded
+            pm = pres.get("c15_profile_mismatches")
+            npairs = pres.get("c15_profile_npairs", "?")
+            plabel = "(saved, loaded) profile pairs through the real SaveUserProfile / LoadUserProfile (primary and cache): canon (gob_roundtrip saved) = canon loaded (Model/Profile.v)"
+            plines = []
+            pp = os.path.join(ctx.work, "CasesC15p.idx")
+            if os.path.exists(pp):
+                plines = open(pp, errors="replace").read().split("\n")
+            if pm == "[]" and npairs not in ("?", "0"):
+                ctx.obligations.append(("corr:%s (%s pairs)" % (plabel, npairs), True, "no mismatch"))
+            else:
+                ctx.obligations.append(("corr:" + plabel, False, "mismatch indices %s (%s pairs)" % ((pm or "missing")[:200], npairs)))
+                i = first_index(pm)
+                ctx.broken.append(("correspondence", "c15_profile_mismatches",
+                                   {"label": plabel, "first_mismatch": plines[i] if i is not None and i < len(plines) else None, "indices": (pm or "")[:400]}))
+            # ... and the property's own conclusion on the observation: canon saved = canon loaded
+            pv = first_index(pres.get("c15_profile_violating") or "[]")
+            if pv is not None:
+                ctx.hits.append({"key": "C15:model-oracle:profile-content-changed",
+                                 "oracle": "the canonical content (Model/Profile.v canon, evaluated inside Coq) of the profile handed to SaveUserProfile and of what LoadUserProfile returned for that user",
+                                 "what": "a stored profile was not read back with the content that was saved (c15_profile_roundtrip)",
+                                 "case": {"pair": plines[pv] if pv < len(plines) else None, "case_index": pv},
+                                 "observed": {"class": "profile-content-changed", "pairs": (pres.get("c15_profile_violating") or "")[:200]}})
             # round 2: a mismatching history on which the OBSERVATION violates the property is a failing input
             viol = res.get("c15_violating") or "[]"
             lines = []
